@@ -238,7 +238,7 @@ def main():
 
     # oracle on the implementation: fresh inputs (and the disagreeing ones first)
     ores = oracles.run(prop, seed, tier, extra_inputs=[(d["op"], d["input"]) for d in disagreements[:50]],
-                       boost=10 if broken_tie else 1, kf=kf)
+                       boost=(10 if broken_tie else 1) if not os.environ.get("VERIF_NOBOOST") else 1, kf=kf)
     cov["oracle_evaluations"] = ores["evaluations"]
     cov["oracle_nontrivial"] = ores["nontrivial"]
     cov["evaluations"] += ores["evaluations"]
